@@ -40,20 +40,21 @@ class Target:
     c: float = 0.0
     nan_region: tuple | None = None  # (dim, lo, hi): likelihood is NaN there
     prior_hole: tuple | None = None  # (dim, lo, hi): prior is zero there
+    like_cut: tuple | None = None  # (dim, threshold): likelihood is exactly zero (log = -inf) where x[dim] < threshold
 
     # -- serialisation (scenario files) --------------------------------------
     def to_dict(self):
         return {
             k: getattr(self, k)
             for k in (
-                "kind dims lower upper factor mu sigma kappa sep c nan_region prior_hole"
+                "kind dims lower upper factor mu sigma kappa sep c nan_region prior_hole like_cut"
             ).split()
         }
 
     @classmethod
     def from_dict(cls, d):
         d = dict(d)
-        for k in ("nan_region", "prior_hole"):
+        for k in ("nan_region", "prior_hole", "like_cut"):
             if d.get(k) is not None:
                 d[k] = tuple(d[k])
         return cls(**d)
@@ -101,6 +102,9 @@ class Target:
                 out = out + np.logaddexp(a, b) + math.log(0.5)
             else:
                 raise ValueError(k)
+        if self.like_cut is not None:
+            d, thr = self.like_cut
+            out = np.where(x[:, d] < thr, -np.inf, out)
         if self.nan_region is not None:
             d, a, b = self.nan_region
             out = np.where((x[:, d] > a) & (x[:, d] < b), np.nan, out)
